@@ -139,6 +139,17 @@ def out(w):
     return w.new_id()
 
 
+def index_untouched(w, what, encoded, decoded):
+    """An index handed over as a NumPy array is an operand too: it must come back as it went in."""
+    if "C15" not in w.props:
+        return
+    for e, x in zip(encoded, decoded):
+        if isinstance(x, np.ndarray):
+            fresh = dec_index(e)
+            if x.dtype != fresh.dtype or x.shape != fresh.shape or not (x == fresh).all():
+                raise Violation("C15", "operand_changed", "%s changed the index array it was given: %r -> %r" % (what, fresh.tolist(), x.tolist()))
+
+
 def keeps_list(w, what, seq, call):
     """The caller's list (its length and the identity of its items) is an operand too."""
     ids = [id(x) for x in seq] if isinstance(seq, list) else None
@@ -334,16 +345,19 @@ def _getitem():
     def run(w, s):
         a = w.arr(s["a"])
         idx = tuple(dec_index(e) for e in s["idx"])
-        if len(idx) == 1 and s["idx"][0]["k"] != "e" and s.get("via") == "[]":
-            return a[idx[0]]
-        via = s.get("via", "[]")
-        if via == "[]":
-            return a[idx]
-        if via == "loc":
-            return a.loc[idx]
-        if via == "nloc":
-            return a.nloc[idx]
-        return a.take(idx)
+        try:
+            if len(idx) == 1 and s["idx"][0]["k"] != "e" and s.get("via") == "[]":
+                return a[idx[0]]
+            via = s.get("via", "[]")
+            if via == "[]":
+                return a[idx]
+            if via == "loc":
+                return a.loc[idx]
+            if via == "nloc":
+                return a.nloc[idx]
+            return a.take(idx)
+        finally:
+            index_untouched(w, "indexing by label", s["idx"], idx)
     return gen, run
 
 
@@ -362,13 +376,16 @@ def _ix():
         a = w.arr(s["a"])
         idx = tuple(dec_index(e) for e in s["idx"])
         via = s.get("via")
-        if via == "take_broadcast":
-            return a.take(idx, indexing="position", broadcast=True)
-        if via == "ix":
-            return a.ix[idx]
-        if via == "iloc":
-            return a.iloc[idx]
-        return a.take(idx, indexing="position")
+        try:
+            if via == "take_broadcast":
+                return a.take(idx, indexing="position", broadcast=True)
+            if via == "ix":
+                return a.ix[idx]
+            if via == "iloc":
+                return a.iloc[idx]
+            return a.take(idx, indexing="position")
+        finally:
+            index_untouched(w, "indexing by position", s["idx"], idx)
     return gen, run
 
 
@@ -883,7 +900,7 @@ def _negkey(x):
 def _interp_axis():
     def gen(w, rng):
         def ok(a):
-            return a.ndim > 0 and a.dtype.kind in "fi"
+            return a.ndim > 0 and a.dtype.kind in "fib"       # (boolean data interpolates in one dimension)
         a_id = pick_arr(w, rng, ok)
         if a_id is None:
             return None
